@@ -16,6 +16,13 @@
                      uses compute_inner_layout(header.capacity); the static empty vector (refcount < 0) is never counted or freed
   provider-mapping   the Rust bridge maps the C structs field by field onto the resolvo types (candidates/favored/locked/
                      hints/excluded; requirements/constrains; problem fields) and forwards `inverse` and the version set
+
+Added after the second and third seeding rounds:
+  C++ header protocol (alloc-symmetry): with_capacity is exact while a constructor derives size from capacity; every non-const
+                     accessor returning T* / T& detaches; push_back takes the element out of its reference parameter before
+                     detach (D12); String copy assignment is self-safe (D13)
+  Rust side: relocated-elements-are-marked-moved (Vector::from_iter growth path); raw-pointer-read-before-vectors-are-consumed
+                     (get_candidates bridge, D14); *result is overwritten with the solution; Problem fields forwarded in caller order
 """
 from common import *
 import q, cxx
